@@ -311,3 +311,15 @@ def definition_docs():
                 dd, uu = d.replace('%s', n), u.replace('%s', n)
                 out += [uu + ' ' + dd + ' ' + uu, dd + ' ' + uu, uu + '\n' + dd, '\\newcommand{\\unit}{' + uu + '} ' + dd]
     return out
+
+
+def verb_docs():
+    """`\\verb` is an ordinary command for this parser; what follows it - a delimiter of any category, terminated or not,
+    at the end of the input or of a line - is ordinary input"""
+    out = []
+    for name in ('verb', 'verb*', 'Verb', 'lstinline', 'url', 'href', 'path'):
+        for tail in ('|foo', '|foo|', '+a$b+ c', '!x', '|', '', '{a%b}', '{x%PAY}LOAD\n}', '|a\nb|', '{http://a.b/%7Efoo}', '|%|', '$x$'):
+            for pre in ('see ', '', '{', '\\begin{a}'):
+                out.append(pre + '\\' + name + tail)
+                out.append(pre + '\\' + name + tail + '\n\\x{y}')
+    return out
